@@ -85,8 +85,8 @@ namespace detail
 		template<typename genType>
 		GLM_FUNC_QUALIFIER static genType call(genType Source, genType Multiple)
 		{
-			genType Tmp = Source - genType(1);
-			return Tmp + (Multiple - (Tmp % Multiple));
+			genType const Rem = Source % Multiple;
+			return Rem == genType(0) ? Source : static_cast<genType>(Source + (Multiple - Rem));
 		}
 	};
 
